@@ -256,6 +256,11 @@ class DigitStr:
             return self.nd == 0
         raise Unsupported('DigitStr ==')
 
+    def go_rconcat(self, ex, prefix):
+        if not isinstance(prefix, str):
+            raise Unsupported('concatenation of a symbolic string and a sub-match')
+        return PrefixedDigits(prefix, self)
+
     def go_index(self, ex, i):
         n = self.nd + len(self.sign)
         if is_sym(i) or i < 0 or i >= n:
@@ -265,6 +270,13 @@ class DigitStr:
         d = ex.fresh('digit')
         ex.assume(z3.And(d >= 48, d <= 57))
         return d
+
+
+class PrefixedDigits:
+    """constant prefix + a sub-match (e.g. "0." + fraction digits)"""
+
+    def __init__(self, prefix, digits):
+        self.prefix, self.digits = prefix, digits
 
 
 def pg_interval_codec(chk, prog):
@@ -323,8 +335,19 @@ def pg_interval_codec(chk, prog):
 
         def pow10(ex_, a, nm):
             return FloatV(float(10 ** a[0]))
+        used_float = []
+
+        def parse_float(ex_, a, nm):
+            # strconv.ParseFloat on "0." + digits: the correctly rounded float64 of value / 10^nd (standard error model)
+            g = a[0]
+            if not (isinstance(g, PrefixedDigits) and g.prefix == '0.' and g.digits.sign == ''):
+                raise Unsupported('strconv.ParseFloat on %r' % (g,))
+            from gosym import fpmodel
+            used_float.append(1)
+            return (FloatV(fpmodel.rounded(ex_, z3.ToReal(g.digits.value) / z3.RealVal(10 ** g.digits.nd))), None)
         ex.intrinsics = dict(ex.intrinsics)
-        ex.intrinsics.update({'(*regexp.Regexp).FindStringSubmatch': find, '(*regexp.Regexp).SubexpIndex': subexp, 'strconv.Atoi': atoi, 'math.Pow10': pow10})
+        ex.intrinsics.update({'(*regexp.Regexp).FindStringSubmatch': find, '(*regexp.Regexp).SubexpIndex': subexp, 'strconv.Atoi': atoi, 'math.Pow10': pow10,
+                              'strconv.ParseFloat': parse_float})
         res, err = ex.call_named(ST + 'ParsePostgreSQLInterval', [src])
         # PostgreSQL's meaning: the sign written before the hours applies to the whole HH:MM:SS.ffffff part
         tsign = -1 if hs == '-' else 1
@@ -348,13 +371,28 @@ def pg_interval_codec(chk, prog):
         dsc = lambda m: {'text': text(m), 'want_ns': m.eval(zint(want), model_completion=True).as_long()}
 
         def rp(m, desc):
-            scn = {'base_now': '2000000000000000000', 'rows': {}, 'ops': [{'op': 'parse_interval', 's': desc['text']}]}
+            cands = [(desc['text'], desc['want_ns'])]
+            if used_float and frnd:
+                # the code went through float64: under the error model every fraction value is a counterexample candidate (the model
+                # over-approximates rounding); the replay tries further fraction values of the same shape to find one that reproduces
+                import random
+                rnd = random.Random(12345)
+                ev = lambda x: m.eval(zint(x), model_completion=True).as_long()
+                base = ev(want) - tsign * ev(fr.value) * scale
+                head = desc['text'].rsplit('.', 1)[0]
+                for k in range(600):
+                    nd2 = (frnd, 6, 9)[k % 3]      # fraction values of this and of the two usual lengths (micro-, nanoseconds)
+                    v = rnd.randrange(10 ** nd2)
+                    cands.append((head + '.' + str(v).rjust(nd2, '0'), base + tsign * v * (SEC // 10 ** nd2)))
+            scn = {'base_now': '2000000000000000000', 'rows': {}, 'ops': [{'op': 'parse_interval', 's': t} for t, _ in cands]}
             out = replay.run_scenarios([scn])[0]
-            path = replay.save_scenario('C17', 'pg-interval', scn, desc)
             if 'error' in out:
                 raise RuntimeError(out['error'][-300:])
-            r = out['results'][0]
-            return (r.get('err') is not None or int(r['ns']) != desc['want_ns']), path
+            for (t, w), r in zip(cands, out['results']):
+                if r.get('err') is not None or int(r['ns']) != w:
+                    scn1 = {'base_now': '2000000000000000000', 'rows': {}, 'ops': [{'op': 'parse_interval', 's': t}]}
+                    return True, replay.save_scenario('C17', 'pg-interval', scn1, dict(desc, text=t, want_ns=w, got=r))
+            return False, replay.save_scenario('C17', 'pg-interval', scn, desc)
         ob.verify(ex, 'postgres-interval-text-parses', err is None, dsc, replay=rp)
         if err is None:
             ob.verify(ex, 'postgres-interval-text-means-what-postgres-means', ex.eq(res, want), dsc, replay=rp,
